@@ -25,11 +25,13 @@ var aNames = []string{"string", "number", "boolean", "any", "People", "Man", "Ca
 var aIdents = []string{"name", "age", "one", "x", "cb", "list", "sep", "people", "p10", "x0"}
 
 func (g *aGen) sp() string {
-	switch g.r.Intn(6) {
+	switch g.r.Intn(7) {
 	case 0:
 		return ""
 	case 1:
 		return "  "
+	case 2:
+		return "\t" // a tab separates annotation tokens like a space does
 	}
 	return " "
 }
@@ -306,6 +308,9 @@ func runC16(res *lib.Result, tier string, seed int64, args []string) error {
 		r := root.Fork(uint64(i))
 		g := &aGen{r: r}
 		line, want := g.line()
+		if k := strings.Index(line, " "); k > 0 && r.Chance(1, 5) {
+			line = line[:k] + "\t" + line[k+1:] // the tag is followed by a tab
+		}
 		valid := true
 		if r.Chance(1, 3) {
 			// single-token corruption
